@@ -6,7 +6,7 @@ runtime (level B, exhaustive depth 3) and, at Lua level, generated programs (loo
 to-be-closed wrappers, bulk-charging library calls) under runtime.callcontext{kill={cpu=L}} with L swept around the
 program's own usage u: killed <=> L <= u, identical results when not killed, host-callback trace of a killed run is
 a prefix of the unlimited one, reported used < L."""
-from . import common, ctxlib, luaquota
+from . import common, ctxlib, luaquota, quotaprobes
 from .luaquota import HUGE
 
 PROBES = [
@@ -186,12 +186,15 @@ def run(ctx):
         "CPU accounting is taken as the counter runtime.callcontext reports; 'real work between two increments is bounded' is "
         "not decided here (no instruction-level instrumentation); see DESIGN section 6 Partial",
         "no-overflow hypothesis n + L <= 2^64 for kill_exact (limits from Lua are < 2^63, amounts are lengths)",
+        "'no single operation runs unmetered' is decided for the scanning templates of checks/quotaprobes.py CPU_AMPLIFY only "
+        "(charged CPU against a lower bound in the size parameter), not for every library function",
         "a generated program's sequence of CPU requests up to the kill point does not depend on L (deterministic VM): "
         "checked by the identical-trace comparison, not proved",
     ]
     msgs = common.regen(ctx)
     for m in msgs:
         ctx.obligations.append({"name": "translate:" + m.split(":")[0].split(" ")[-1], "ok": False, "axioms": [], "note": m})
+    quotaprobes.regen_recover_sites(ctx)
     common.prove(ctx)
     common.build_oracle()
     h = common.build_go("c07", "cmd/c07")
@@ -211,6 +214,12 @@ def run(ctx):
         lua_leg(ctx, runner, 400, 200)
     else:
         lua_leg(ctx, runner, 60, 25)
+    ctx.log("callback sites, CPU amplification")
+    # the limit hit inside every kind of callback (sort comparator, metamethods, gsub / load callbacks, message
+    # handlers, __close on every exit path, __gc) with a pcall around: not interceptable at any recover site
+    quotaprobes.callback_leg(ctx, runner, "cpu")
+    # scanning library calls must charge CPU that grows with the work they do
+    quotaprobes.cpu_amplify_leg(ctx, runner, ctx.tier == "thorough")
 
 
 def replay(ctx, path):
